@@ -1,6 +1,7 @@
 package rules
 
 import (
+	"go/constant"
 	"fmt"
 	"go/ast"
 	"go/token"
@@ -1553,4 +1554,338 @@ func E5WidthRuns(c *core.Ctx, r *core.Report) {
 	}
 	r.Count("E5.w-trailing-flushes", flushes)
 	r.Floor("E5.w-trailing-flushes", 1)
+}
+
+// E5StreamFilters: the filter a stream declares is the encoding its bytes are in when they are written.
+func E5StreamFilters(c *core.Ctx, r *core.Report) {
+	r.Rule("E5.stream-filter", "a pdfStream's /Filter tells the reader how to decode its bytes. writeVal applies the filters named in the cases of its `switch filter` itself (Flate, ASCII85), so for those the stream field must hold raw bytes; every other filter is written through unchanged (\"assume already in the right format\"), so the stream field must already hold bytes produced by the matching encoder (image/jpeg.Encode for DCTDecode). Decided per path through the function that builds the stream (branches enumerated, so the filter variable and the byte slice chosen in the same branch stay together)")
+	p := c.MustPkg(pdfRel)
+	info := p.TypesInfo
+	// filters writeVal encodes itself
+	self := map[string]bool{}
+	wv := core.MustFuncDecl(p, "pdfWriter.writeVal")
+	ast.Inspect(wv.Body, func(n ast.Node) bool {
+		sw, ok := n.(*ast.SwitchStmt)
+		if !ok || sw.Tag == nil {
+			return true
+		}
+		if t := info.TypeOf(sw.Tag); t == nil || !isNamed(t, "renderers/pdf", "pdfFilter") {
+			return true
+		}
+		for _, cs := range sw.Body.List {
+			for _, e := range cs.(*ast.CaseClause).List {
+				if cn := core.ConstName(info, e); cn != "" {
+					self[cn] = true
+				}
+			}
+		}
+		return true
+	})
+	if len(self) == 0 {
+		panic(core.Infra("E5.stream-filter: writeVal's switch over the filter not found"))
+	}
+	encoderFor := map[string]string{"pdfFilterDCT": "jpeg"} // pass-through filter -> encoder that must have produced the bytes
+	type env map[types.Object]string
+	clone := func(e env) env {
+		o := env{}
+		for k, v := range e {
+			o[k] = v
+		}
+		return o
+	}
+	n := 0
+	for _, fd := range core.AllFuncDecls(p) {
+		if fd.Body == nil {
+			continue
+		}
+		hasStream := false
+		ast.Inspect(fd.Body, func(m ast.Node) bool {
+			if cl, ok := m.(*ast.CompositeLit); ok {
+				if t := info.TypeOf(cl); t != nil && isNamed(t, "renderers/pdf", "pdfStream") {
+					hasStream = true
+				}
+			}
+			return true
+		})
+		if !hasStream {
+			continue
+		}
+		fname := "pdf." + core.FuncName(fd)
+		ord := map[*ast.CompositeLit]int{}
+		reported := map[string]bool{}
+		valOf := func(e ast.Expr, en env) string {
+			e = core.Unparen(e)
+			if cn := core.ConstName(info, e); cn != "" {
+				return cn
+			}
+			switch x := e.(type) {
+			case *ast.Ident:
+				return en[core.ObjOf(info, x)]
+			case *ast.CallExpr:
+				// buf.Bytes() of a buffer an encoder wrote to; make([]byte, …) is raw
+				if sel, ok := x.Fun.(*ast.SelectorExpr); ok && sel.Sel.Name == "Bytes" {
+					if id, ok := core.Unparen(sel.X).(*ast.Ident); ok {
+						if v := en[core.ObjOf(info, id)]; v != "" {
+							return v
+						}
+					}
+					return "raw"
+				}
+				if id, ok := x.Fun.(*ast.Ident); ok && id.Name == "make" {
+					return "raw"
+				}
+			case *ast.CompositeLit:
+				if t := info.TypeOf(x); t != nil && isNamed(t, "renderers/pdf", "pdfDict") {
+					for _, el := range x.Elts {
+						if kv, ok := el.(*ast.KeyValueExpr); ok {
+							if tv, ok := info.Types[kv.Key]; ok && tv.Value != nil && strings.Trim(tv.Value.ExactString(), "\"") == "Filter" {
+								return "filter=" + valOfFilter(info, kv.Value, en)
+							}
+						}
+					}
+					return "filter="
+				}
+			}
+			return ""
+		}
+		var checkLit func(cl *ast.CompositeLit, en env)
+		checkLit = func(cl *ast.CompositeLit, en env) {
+			var dictV, streamV string
+			for _, el := range cl.Elts {
+				kv, ok := el.(*ast.KeyValueExpr)
+				if !ok {
+					continue
+				}
+				k, _ := kv.Key.(*ast.Ident)
+				if k == nil {
+					continue
+				}
+				switch k.Name {
+				case "dict":
+					dictV = valOf(kv.Value, en)
+				case "stream":
+					streamV = valOf(kv.Value, en)
+				}
+			}
+			if _, seen := ord[cl]; !seen {
+				ord[cl] = len(ord) + 1
+				n++
+			}
+			key := fmt.Sprintf("%s|stream #%d|declared filter matches the bytes", fname, ord[cl])
+			filter := strings.TrimPrefix(dictV, "filter=")
+			bad := ""
+			switch {
+			case !strings.HasPrefix(dictV, "filter="):
+				// the dictionary is built elsewhere: not decided here
+			case filter == "" || self[filter]:
+				if streamV != "" && streamV != "raw" {
+					bad = fmt.Sprintf("the stream declares %s, which writeVal applies itself, but its bytes are already %s-encoded: they are encoded twice", orNone(filter), streamV)
+				}
+			default:
+				want, known := encoderFor[filter]
+				if !known {
+					bad = fmt.Sprintf("the stream declares %s, which writeVal writes through unchanged, and no encoder is known for it", filter)
+				} else if streamV != want {
+					bad = fmt.Sprintf("the stream declares %s, which writeVal writes through unchanged, but on this path its bytes are %s, not the output of the %s encoder: a reader cannot decode the object", filter, orNone(streamV), want)
+				}
+			}
+			if bad != "" {
+				if !reported[key] {
+					reported[key] = true
+					r.Fail("E5.stream-filter", key, c.Pos(cl.Pos()), bad)
+				}
+			} else if !reported[key+"ok"] {
+				reported[key+"ok"] = true
+			}
+		}
+		var run func(list []ast.Stmt, envs []env) []env
+		scanLits := func(n ast.Node, en env) {
+			ast.Inspect(n, func(m ast.Node) bool {
+				if cl, ok := m.(*ast.CompositeLit); ok {
+					if t := info.TypeOf(cl); t != nil && isNamed(t, "renderers/pdf", "pdfStream") {
+						checkLit(cl, en)
+					}
+				}
+				return true
+			})
+		}
+		run = func(list []ast.Stmt, envs []env) []env {
+			for _, st := range list {
+				switch x := st.(type) {
+				case *ast.IfStmt:
+					var out []env
+					for _, en := range envs {
+						if x.Init != nil {
+							run([]ast.Stmt{x.Init}, []env{en})
+						}
+						scanLits(x.Cond, en)
+						out = append(out, run(x.Body.List, []env{clone(en)})...)
+						if x.Else != nil {
+							out = append(out, run([]ast.Stmt{x.Else}, []env{clone(en)})...)
+						} else {
+							out = append(out, en)
+						}
+					}
+					if len(out) > 64 {
+						out = out[:64]
+					}
+					envs = out
+				case *ast.BlockStmt:
+					envs = run(x.List, envs)
+				case *ast.ForStmt:
+					envs = run(x.Body.List, envs)
+				case *ast.RangeStmt:
+					envs = run(x.Body.List, envs)
+				case *ast.SwitchStmt:
+					var out []env
+					for _, cs := range x.Body.List {
+						for _, en := range envs {
+							out = append(out, run(cs.(*ast.CaseClause).Body, []env{clone(en)})...)
+						}
+					}
+					if len(out) > 0 {
+						envs = out
+					}
+				case *ast.AssignStmt:
+					for _, en := range envs {
+						scanLits(x, en)
+						if len(x.Lhs) == len(x.Rhs) {
+							for i, l := range x.Lhs {
+								if id, ok := l.(*ast.Ident); ok {
+									if v := valOf(x.Rhs[i], en); v != "" {
+										en[core.ObjOf(info, id)] = v
+									}
+								}
+							}
+						}
+						// jpeg.Encode(&buf, …) as the right-hand side of `_ = …`
+						for _, rh := range x.Rhs {
+							markEncoder(info, rh, en)
+						}
+					}
+				case *ast.ExprStmt:
+					for _, en := range envs {
+						scanLits(x, en)
+						markEncoder(info, x.X, en)
+					}
+				case *ast.DeclStmt:
+				default:
+					for _, en := range envs {
+						scanLits(st, en)
+					}
+				}
+			}
+			return envs
+		}
+		run(fd.Body.List, []env{{}})
+		for cl, k := range ord {
+			key := fmt.Sprintf("%s|stream #%d|declared filter matches the bytes", fname, k)
+			if !reported[key] {
+				r.OK("E5.stream-filter", key, c.Pos(cl.Pos()), "")
+			}
+		}
+	}
+	r.Count("E5.stream-literals", n)
+	r.Floor("E5.stream-literals", 5)
+}
+
+func valOfFilter(info *types.Info, e ast.Expr, en map[types.Object]string) string {
+	e = core.Unparen(e)
+	if cn := core.ConstName(info, e); cn != "" {
+		return cn
+	}
+	if id, ok := e.(*ast.Ident); ok {
+		return en[core.ObjOf(info, id)]
+	}
+	return "?"
+}
+
+// markEncoder: jpeg.Encode(&buf, …) leaves jpeg bytes in buf.
+func markEncoder(info *types.Info, e ast.Expr, en map[types.Object]string) {
+	call, ok := core.Unparen(e).(*ast.CallExpr)
+	if !ok || len(call.Args) == 0 {
+		return
+	}
+	f := core.CalleeOf(info, call)
+	if f == nil || f.Pkg() == nil || f.Pkg().Path() != "image/jpeg" || f.Name() != "Encode" {
+		return
+	}
+	if ue, ok := core.Unparen(call.Args[0]).(*ast.UnaryExpr); ok && ue.Op == token.AND {
+		if id, ok := core.Unparen(ue.X).(*ast.Ident); ok {
+			en[core.ObjOf(info, id)] = "jpeg"
+		}
+	}
+}
+
+// E5StringEscape: the literal-string writer escapes every byte the PDF syntax would otherwise reinterpret.
+func E5StringEscape(c *core.Ctx, r *core.Report) {
+	r.Rule("E5.string-escape", "writeVal writes Go strings as PDF literal strings `(…)`. Inside a literal string a reader treats the backslash as an escape, unbalanced parentheses as delimiters and an unescaped carriage return (alone or before a line feed) as a single line feed (ISO 32000-1 §7.3.4.2). The string case therefore replaces each of `\\`, `(`, `)` and CR by its escape, the backslash first. Document information is stored as UTF-16BE in such strings, where the byte 0x0D occurs inside ordinary letters (U+010D, the Malayalam block U+0D00…): without the CR escape it is not stored verbatim")
+	p := c.MustPkg(pdfRel)
+	info := p.TypesInfo
+	wv := core.MustFuncDecl(p, "pdfWriter.writeVal")
+	r.Func("pdf.pdfWriter.writeVal")
+	var clause *ast.CaseClause
+	ast.Inspect(wv.Body, func(n ast.Node) bool {
+		ts, ok := n.(*ast.TypeSwitchStmt)
+		if !ok || clause != nil {
+			return true
+		}
+		for _, s := range ts.Body.List {
+			cc := s.(*ast.CaseClause)
+			for _, e := range cc.List {
+				if tv, ok := info.Types[e]; ok && tv.IsType() && types.Identical(tv.Type, types.Typ[types.String]) {
+					clause = cc
+				}
+			}
+		}
+		return false
+	})
+	if clause == nil {
+		panic(core.Infra("E5.string-escape: string case of writeVal not found"))
+	}
+	var order []string
+	for _, s := range clause.Body {
+		ast.Inspect(s, func(n ast.Node) bool {
+			call, ok := n.(*ast.CallExpr)
+			if !ok {
+				return true
+			}
+			f := core.CalleeOf(info, call)
+			if f == nil || f.Pkg() == nil || f.Pkg().Path() != "strings" || (f.Name() != "Replace" && f.Name() != "ReplaceAll") || len(call.Args) < 3 {
+				return true
+			}
+			if tv, ok := info.Types[call.Args[1]]; ok && tv.Value != nil {
+				order = append(order, constantStringVal(tv.Value))
+			}
+			return true
+		})
+	}
+	pos := c.Pos(clause.Pos())
+	for _, need := range []struct{ b, name string }{{"\\", "backslash"}, {"(", "opening parenthesis"}, {")", "closing parenthesis"}, {"\r", "carriage return"}} {
+		key := "pdf.pdfWriter.writeVal|literal string|" + need.name + " escaped"
+		found := false
+		for _, o := range order {
+			if o == need.b {
+				found = true
+			}
+		}
+		if found {
+			r.OK("E5.string-escape", key, pos, "")
+		} else {
+			r.Fail("E5.string-escape", key, pos, "the "+need.name+" is written unescaped into a literal string: a reader does not get back the bytes that were stored")
+		}
+	}
+	key := "pdf.pdfWriter.writeVal|literal string|backslash escaped first"
+	if len(order) > 0 && order[0] == "\\" {
+		r.OK("E5.string-escape", key, pos, "")
+	} else {
+		r.Fail("E5.string-escape", key, pos, "the backslash is not the first byte to be escaped: the backslashes introduced by the other escapes are escaped again")
+	}
+}
+
+func constantStringVal(v constant.Value) string {
+	if v.Kind() == constant.String {
+		return constant.StringVal(v)
+	}
+	return v.ExactString()
 }
